@@ -30,7 +30,7 @@ LEVEL = {"C06": "exploration", "C07": "fault_enumeration", "C10": "exploration",
 TIERS = {
     "quick": {
         "selftest": 24, "runs": {"C06": 1400, "C07": 520, "C10": 1400, "C17": 1200},
-        "explore_wall": 50, "sweeps": 24, "coldproc": 8, "sweeps_wall": 240, "micropool_len": 3, "micropools": 1,
+        "explore_wall": 50, "sweeps": 24, "coldproc": 12, "sweeps_wall": 240, "micropool_len": 3, "micropools": 1,
         "micropool_wall": 200, "minimise_s": 45,
         "hash_runs": 500, "hash_seeds": 2,
     },
@@ -153,8 +153,10 @@ def settle_divergence(c, job, hs_a, hs_b, run_seed, out):
         raise HarnessError(f"selftest: run seed {run_seed} diverges between processes because of the harness: "
                            f"{inv['detail']}")
     else:
-        raise HarnessError(f"selftest: run seed {run_seed} gave different digests in two processes (hash seeds "
-                           f"{hs_a}, {hs_b}) but the difference did not reproduce in 4 fresh process pairs")
+        # keep going: if formulae is at fault the other phases usually show it as a proper violation; if nothing
+        # else is found the check ends with exit 2 (it can not say "held" after an unexplained divergence)
+        c.unexplained.append(f"run seed {run_seed} gave different digests in two processes (hash seeds {hs_a}, "
+                             f"{hs_b}) but the difference did not reproduce in 4 fresh process pairs")
 
 
 def handle_violation(c, pool, res, found_by):
@@ -232,6 +234,7 @@ def main(argv=None):
     c.T = TIERS[a.tier]
     c.oracles = ORACLES_OF[c.prop]
     c.violations = []
+    c.unexplained = []
     c.log = os.path.join(HERE, "evidence", f".{c.prop}-{c.tier}.worker.log")
     os.makedirs(os.path.join(HERE, "evidence"), exist_ok=True)
     open(c.log, "w").close()
@@ -296,6 +299,9 @@ def main(argv=None):
         write_evidence(c, ev, wall, fixed, known_lines)
     for line in known_lines:
         print(line)
+    if c.unexplained and not c.violations:
+        print(f"HARNESS-ERROR property={c.prop} unexplained divergence between processes: {c.unexplained[0]}")
+        return 2
     if c.violations:
         for v, path in c.violations:
             print(f"VIOLATION property={v['property']} replay={path}")
